@@ -1,7 +1,7 @@
 /- 65 536-point complete evaluation (own file so that lake checks the three in parallel). -/
 import DdsModel.Proofs.ConvInt
 namespace Dds.ConvProofs
-open Dds Dds.Conv Dds.Spec
+open Dds Dds.Conv Dds.Spec Dds.ConvRange
 set_option maxRecDepth 100000
 theorem n16n8_ok : ∀ x, x < 65536 → okInt n16n8 255 (unorm 16) never x = true :=
   forall_lt_of_allRange _ 11 65536 (by decide +kernel)
